@@ -82,6 +82,9 @@ func (a *App) ParamRaw(key string, k int) []byte {
 func (a *App) AclRaw(owners []int, extraKey string, extraOwner int) []byte {
 	acl := govtypes.ACL(make([]govtypes.ACLPair, 0))
 	for i, key := range ParamKeys {
+		if owners[i] == 0 {
+			continue // no entry for this parameter
+		}
 		acl.SetOwner(key, a.Addr(owners[i]))
 	}
 	if extraKey != "" {
